@@ -88,6 +88,9 @@ pub const SITES: &[&str] = &[
     "sync.sem.post_add_permits",
     "sync.sem.pre_close",
     "sync.sem.post_close",
+    // lock points of deadpool-sync (logged when passed = the mutex is acquired right after)
+    "sync.interact.lock",
+    "sync.drop.lock",
     // harness-owned sites (inside closures / callbacks supplied by the harness)
     "harness.closure.begin",
     "harness.closure.mid",
@@ -326,6 +329,15 @@ fn hook_lock_point(site: &'static str, would_block: &dyn Fn() -> bool) {
         }
         let r = suspend(Yield::LockBusy(site));
         debug_assert_eq!(r, Resume::Go);
+    }
+    // passed: the lock is free and is taken right after (no yield in between)
+    if cur != CONTROLLER && !suppressed() {
+        if let Some(idx) = site_index(site) {
+            tls(|t| {
+                let step = t.step;
+                t.site_log.push((step, cur, idx as u16));
+            });
+        }
     }
 }
 
